@@ -153,3 +153,12 @@ Proof. exact poisoned_block_rejected. Qed.
 Theorem C08_block_poison_persists : forall snr h p h',
   h_known h = false -> handle_cmd snr h 0x03 p true = Val h' -> h_known h' = false.
 Proof. exact poison_persists. Qed.
+
+(* "15 = keep" in a later LinkADRReq of the same downlink means the configuration in force at THAT point of the command sequence (h1 may be
+   the result of an earlier accepted block), not the one the downlink started with *)
+Theorem C08_linkadr_keep_is_the_live_configuration : forall snr h1 h2 h3 p,
+  handle_cmd snr h1 0x06 [] false = Val h2 ->
+  handle_cmd snr h2 0x03 p false = Val h3 ->
+  (N.shiftr (nthN p 0) 4 = 15 -> cf_data_rate (h_cf h3) = cf_data_rate (h_cf h1)) /\
+  (N.land (nthN p 0) 15 = 15 -> cf_tx_power (h_cf h3) = cf_tx_power (h_cf h1)).
+Proof. exact linkadr_keep_after_other_request. Qed.
